@@ -107,18 +107,7 @@ def condalloc(chk, P):
     n = 0
     for c, fs in sorted(byc.items()):
         short = c.replace("SimTK::Measure_::", "").replace("::Implementation", "")
-        # fields allocated under a flag
-        cond = {}
-        for f in fs:
-            for b, i, e in f.events(lambda q: bool(ev_write(q)) and ev_write(q)[1] == "=" and isinstance(ev_write(q)[2], list) and
-                                    bool(sx_find(ev_write(q)[2], lambda y: y[0] in ("call", "dcall") and str(y[1]).split("::")[-1].startswith("allocate")))):
-                fld = _memname_any(ev_write(e)[0])
-                if not fld:
-                    continue
-                for flag in _bool_fields(f):
-                    edges = known_edges(f, lambda c_, flag=flag: _memname_any(c_) == flag and isinstance(c_, list) and c_[0] in ("mem", "dmem"), lambda c_: False)
-                    if edges and only_via(f, b, edges):
-                        cond[fld] = flag
+        cond = _cond_flags(fs)
         for fld, flag in sorted(cond.items()):
             isflag = lambda c_, flag=flag: isinstance(c_, list) and c_[0] in ("mem", "dmem") and _memname_any(c_) == flag
 
@@ -156,6 +145,22 @@ def condalloc(chk, P):
                           "%s uses %s without testing %s, and %s" % (nm, fld, flag, ("it is a virtual entry point" if virt else "its call site in %s is not under %s either" %
                                                                      (bad[0][0].name.split("::")[-1] if bad else "?", flag))))
     chk.shape(n >= 3, "CONDALLOC", "conditionally-allocated-resources", "", "%d (method, resource) pairs examined" % n)
+
+
+def _cond_flags(fs):
+    """{resource field: flag field} for index members that a class assigns from an allocate... call only where a bool member of its own is known to hold"""
+    cond = {}
+    for f in fs:
+        for b, i, e in f.events(lambda q: bool(ev_write(q)) and ev_write(q)[1] == "=" and isinstance(ev_write(q)[2], list) and
+                                bool(sx_find(ev_write(q)[2], lambda y: y[0] in ("call", "dcall") and str(y[1]).split("::")[-1].startswith("allocate")))):
+            fld = _memname_any(ev_write(e)[0])
+            if not fld:
+                continue
+            for flag in _bool_fields(f):
+                edges = known_edges(f, lambda c_, flag=flag: _memname_any(c_) == flag and isinstance(c_, list) and c_[0] in ("mem", "dmem"), lambda c_: False)
+                if edges and only_via(f, b, edges):
+                    cond[fld] = flag
+    return cond
 
 
 def _memname_any(x):
@@ -420,9 +425,16 @@ def measures(chk, P):
                 reach = True
             for _, _, e in r.calls():
                 if any(str(e.get("fn", "")).split("::")[-1] == u.name.split("::")[-1] for u in upd_f):
-                    p = r.path_exists(None, "exit", lambda q, e=e: q is e)
+                    # the update may be skipped only where the auto-update variable does not exist: on edges where the flag under which it is allocated
+                    # (CONDALLOC) is known false
+                    flags = set(_cond_flags([g for g in P.all_fns() if g.cls == r.cls]).values())
+                    off = set()
+                    for fl in flags:
+                        off |= known_edges(r, lambda c_: False, lambda c_, fl=fl: isinstance(c_, list) and c_[0] in ("mem", "dmem") and _memname_any(c_) == fl)
+                    p = r.path_exists(None, "exit", lambda q, e=e: q is e, avoid_edges=off)
                     reach = reach or p is None
-        chk.judge(bool(rz) and reach, "PAIRCALL", nm + ":realizeAcceleration->update", rz[0].loc if rz else "", "the Acceleration-stage hook computes the update value on every path")
+        chk.judge(bool(rz) and reach, "PAIRCALL", nm + ":realizeAcceleration->update", rz[0].loc if rz else "",
+                  "the Acceleration-stage hook computes the update value on every path on which the auto-update variable exists")
         written = set()
         for u in upd_f:
             written |= indices_updated(u)
